@@ -22,7 +22,7 @@ for d, ver, res in rows:
     agent = "_incoming" in d
     if agent:
         pid, x = d.split("/")[-2:]
-        name = "%s-%s-%s" % ("agent7" if "_incoming7" in d else "agent6" if "_incoming6" in d else "agent5" if "_incoming5" in d else "agent4" if "_incoming4" in d else "agent3" if "_incoming3" in d else ("agent2" if "_incoming2" in d else "agent"), pid, x)
+        name = "%s-%s-%s" % ("agent8" if "_incoming8" in d else "agent7" if "_incoming7" in d else "agent6" if "_incoming6" in d else "agent5" if "_incoming5" in d else "agent4" if "_incoming4" in d else "agent3" if "_incoming3" in d else ("agent2" if "_incoming2" in d else "agent"), pid, x)
         notes = open(os.path.join(src, "notes.md")).read() if os.path.exists(os.path.join(src, "notes.md")) else ""
         needs = " ".join(notes.split())[:600]
     else:
